@@ -91,3 +91,26 @@ def subset_constructible(res, rel="kappadata/datasets/kd_subset.py", cls="KDSubs
                detail="" if ok else f"{gi} overrides __getitem__, no class of the family defines __getitems__, "
                                     "and the installed torch raises NotImplementedError in that case",
                model=None if ok else {"construct": "KDSubset(range(3), [0])"})
+
+
+def all_scale_strength_under_contract(res, contracts):
+    """every `_scale_strength` / `scale_strength` definition shipped by the package is under a contract of C15
+    (a newly added scaling transform without one makes this obligation fail -> undecided, never silently skipped)"""
+    import glob
+    have = {c["target"] for c in contracts}
+    missing = []
+    for path in sorted(glob.glob(os.path.join(REPO, "kappadata", "**", "*.py"), recursive=True)):
+        rel = os.path.relpath(path, REPO)
+        try:
+            tree = ast.parse(open(path).read())
+        except SyntaxError:
+            continue
+        for cd in [n for n in tree.body if isinstance(n, ast.ClassDef)]:
+            for fn in cd.body:
+                if isinstance(fn, ast.FunctionDef) and fn.name in ("_scale_strength", "scale_strength"):
+                    if len(fn.body) == 1 and isinstance(fn.body[0], ast.Pass):
+                        continue
+                    if f"{rel}::{cd.name}.{fn.name}" not in have:
+                        missing.append(f"{rel}::{cd.name}.{fn.name}")
+    add_direct(res, "frame:every-scale-strength-under-contract", "frame", not missing, undecided=bool(missing),
+               note="every scaling implementation of the package has a C15 contract", detail="; ".join(missing))
